@@ -14,11 +14,16 @@ from vcommon import Case
 import props as P
 
 
-def load_corpus(kinds):
+def load_corpus(kinds, prop):
+    """regression corpus: minimised past failures and the recorded histories of the known findings; a file applies
+    to the properties named in its `# props:` header line"""
     cases = []
     for kind in kinds:
         for f in sorted(glob.glob(os.path.join(V.VERIF, "corpus", kind, "*.case"))):
-            body = [l.rstrip("\n") for l in open(f) if not l.startswith("#") and l.strip()]
+            head = [l for l in open(f) if l.startswith("# props:")]
+            if head and prop not in head[0].split(":", 1)[1].split():
+                continue
+            body = [l.rstrip() for l in open(f) if not l.startswith("#") and l.strip()]
             cases.append(Case(kind, "corpus-" + os.path.basename(f)[:-5], body, {"corpus": f}))
     return cases
 
@@ -65,6 +70,30 @@ def shrink(prop, cfg, case, mode):
     return Case(case.kind, case.cid + "-min", body, case.meta)
 
 
+def audit_names(prop):
+    """the obligations of a property: every theorem listed in PieModel/Audit/<prop>.lean"""
+    path = os.path.join(V.LEAN, "PieModel", "Audit", f"{prop}.lean")
+    if not os.path.exists(path):
+        return []
+    return [l.split()[2] for l in open(path) if l.startswith("#print axioms ")]
+
+
+def audit_names(prop):
+    """the obligations of a property: every theorem listed in PieModel/Audit/<prop>.lean"""
+    path = os.path.join(V.LEAN, "PieModel", "Audit", f"{prop}.lean")
+    if not os.path.exists(path):
+        return []
+    return [l.split()[2] for l in open(path) if l.startswith("#print axioms ")]
+
+
+def audit_names(prop):
+    """the obligations of a property: every theorem listed in PieModel/Audit/<prop>.lean"""
+    path = os.path.join(V.LEAN, "PieModel", "Audit", f"{prop}.lean")
+    if not os.path.exists(path):
+        return []
+    return [l.split()[2] for l in open(path) if l.startswith("#print axioms ")]
+
+
 def replay_path(prop, seed, n):
     return os.path.join(V.VERIF, "replays", f"{prop}-{seed}-{n}.json")
 
@@ -105,7 +134,8 @@ def main():
         leanchecker = dict(rc=rc, out=out[-2000:])
         if rc != 0:
             audit_ok = False
-    expected = set(cfg["theorems"])
+    expected = set(audit_names(prop))
+    cfg["theorems"] = sorted(expected)
     got = {n for n, _ in thms}
     missing = sorted(expected - got)
     if not ok_build or not audit_ok or scan or missing:
@@ -122,7 +152,7 @@ def main():
 
     # 3. correspondence + oracle ---------------------------------------------------------------
     rng = random.Random(seed * 1000003 + sum(map(ord, prop)))
-    cases, stats = load_corpus(cfg["kinds"]), {}
+    cases, stats = load_corpus(cfg["kinds"], prop), {}
     gen_cases, gstats = cfg["generate"](rng, tier, seed)
     cases += gen_cases
     stats.update(gstats)
